@@ -171,7 +171,11 @@ func BuildHookOverlay(repo string, hooks []HookSpec, substs []SubstSpec) (map[st
 		if err != nil {
 			return nil, err
 		}
-		parts := strings.SplitN(s.From, ".", 2)
+		// From is "<import path>.<Name>" (or "<pkg base>.<Name>"); To prefixed with "!" = the harness declares the variable itself
+		li := strings.LastIndex(s.From, ".")
+		parts := []string{s.From[:li], s.From[li+1:]}
+		noDecl := strings.HasPrefix(s.To, "!")
+		s.To = strings.TrimPrefix(s.To, "!")
 		declared := false
 		for _, gf := range p.GoFiles {
 			if strings.HasPrefix(gf, "zz_verif") {
@@ -182,7 +186,7 @@ func BuildHookOverlay(repo string, hooks []HookSpec, substs []SubstSpec) (map[st
 			if err != nil {
 				return nil, err
 			}
-			if !bytes.Contains(src, []byte(s.From)) {
+			if !bytes.Contains(src, []byte("."+parts[1])) {
 				continue
 			}
 			fe, err := getFile(path)
@@ -222,7 +226,11 @@ func BuildHookOverlay(repo string, hooks []HookSpec, substs []SubstSpec) (map[st
 				return true
 			})
 			if n > 0 && !declared {
-				fe.add = append(fe.add, fmt.Sprintf("var %s = %s.%s\n", s.To, local, parts[1]))
+				if !noDecl {
+					fe.add = append(fe.add, fmt.Sprintf("var %s = %s.%s\n", s.To, local, parts[1]))
+				} else {
+					fe.add = append(fe.add, "// "+s.To+" is declared by the harness\n")
+				}
 				declared = true
 			}
 		}
